@@ -714,7 +714,79 @@ class ExprBuilder:
                 return ("agg", "partial", "", tuple((k, mkphi(tuple(v))) for k, v in fields.items()), (body.cdef, -1, ""))
         if not alts:
             return ("unknown", "nodef:%s:_%d" % (body.cdef, l))
+        if len(alts) == 2 and not partial:
+            r = self._as_combinator(body, l, depth)
+            if r is not None:
+                return r
         return mkphi(tuple(alts))
+
+    def _as_combinator(self, body, l, depth):
+        """a local assigned on the two arms of `match s { V(x) => x, _ => d }` is `s.unwrap_or(d)`; assigned
+        `Some(f(x))` / `None` it is `s.map(f)`: one canonical expression for the match form and the combinator form
+        (the combinator calls themselves are expanded to the match form when the facts are loaded)"""
+        import lib
+        ds = [d for d in body.defs.get(l, []) if not (d[2] and not all(p["k"] == "deref" for p in d[2]))]
+        if len(ds) != 2:
+            return None
+
+        def payload_of(op):
+            """(subject local, variant) if operand is `(S as V).0`"""
+            if op.get("k") not in ("copy", "move"):
+                return None
+            ro = lib.root_operand(body, op)
+            if ro.get("k") not in ("copy", "move"):
+                return None
+            pr = [p for p in ro["pl"]["p"] if p["k"] != "deref"]
+            if len(pr) == 2 and pr[0]["k"] == "downcast" and pr[1]["k"] == "field" and pr[1]["n"] == "0" and pr[0]["v"] in ("Some", "Ok"):
+                return ro["pl"]["l"], pr[0]["v"]
+            return None
+
+        def arm_facts(bb):
+            out = {}
+            for c, truth in lib.dominating_conditions(body, bb):
+                if c.kind == "enum" and c.place is not None and not [p for p in c.place["p"] if p["k"] != "deref"] and isinstance(truth, tuple) and len(truth) == 1:
+                    out[(c.place["l"], c.bb)] = truth[0]
+            return out
+        for i in (0, 1):
+            a, b = ds[i], ds[1 - i]
+            if a[3] != "rv":
+                continue
+            rv = a[4]
+            fa, fb = arm_facts(a[0]), arm_facts(b[0])
+            # unwrap_or
+            if rv["k"] == "use":
+                pv = payload_of(rv["op"])
+                if pv is not None:
+                    S, V = pv
+                    other = {"Some": "None", "Ok": "Err"}[V]
+                    for (sl, sbb), tv in fa.items():
+                        if sl == S and tv == V and fb.get((sl, sbb)) == other:
+                            if b[3] == "rv":
+                                d = self.rvalue(body, b[4], (body.cdef, b[0], loc(b[5])), depth + 1)
+                            elif b[3] == "call":
+                                d = self.call(body, b[0], b[4], depth + 1)
+                            else:
+                                return None
+                            name = "std::option::Option::unwrap_or" if V == "Some" else "std::result::Result::unwrap_or"
+                            se = self.local(body, S, depth + 1)
+                            if se[0] == "agg" and se[2] == other:
+                                return d                      # the subject is known to be the other variant
+                            if se[0] == "agg" and se[2] == V and se[3]:
+                                return se[3][0][1]
+                            return ("call", name, (se, d), (body.cdef, sbb, loc(body.term(sbb)["sp"])), SyntheticCall(name, body, sbb))
+            # map(f): Some(f(x)) | None
+            if rv["k"] == "agg" and rv.get("ak") == "adt" and rv.get("variant") == "Some" and canon(rv.get("adt") or "") == "std::option::Option" and rv["ops"] \
+                    and b[3] == "rv" and b[4]["k"] == "agg" and b[4].get("variant") == "None":
+                d0 = lib.def_rvalue(body, rv["ops"][0])
+                if d0 is not None and d0[0] == "call" and len(d0[1].args) == 1 and not d0[1].indirect:
+                    pv = payload_of(d0[1].args[0])
+                    if pv is not None and pv[1] == "Some":
+                        S = pv[0]
+                        for (sl, sbb), tv in fa.items():
+                            if sl == S and tv == "Some" and fb.get((sl, sbb)) == "None":
+                                name = "std::option::Option::map"
+                                return ("call", name, (self.local(body, S, depth + 1), ("fnitem", d0[1].name)), (body.cdef, sbb, loc(body.term(sbb)["sp"])), SyntheticCall(name, body, sbb))
+        return None
 
     def rvalue(self, body, rv, site, depth):
         k = rv["k"]
@@ -763,6 +835,32 @@ class ExprBuilder:
                     name = cand
                     c.resolved = cand
         return ("call", name, args, (body.cdef, bi, c.loc), c)
+
+
+class SyntheticCall:
+    """stands for the Call object of an expression node that was reconstructed from a match"""
+    resolved = None
+    indirect = False
+    noise = False
+    trait = None
+    mname = None
+    self_ty = None
+    args = ()
+
+    def __init__(self, name, body, bb):
+        self.name = name
+        self.full = name
+        self.body = body
+        self.bb = bb
+        self.t = {"rty": "?", "sp": body.term(bb)["sp"], "args": []}
+        self.fn = {"def": name}
+        self.sp = body.term(bb)["sp"]
+        self.loc = loc(self.sp)
+        self.dest = None
+        self.target = None
+
+    def is_trait_method(self, *a):
+        return False
 
 
 def lib_derived(body):
